@@ -41,6 +41,28 @@ __CPROVER_assigns(G_stlo, tl)
 __CPROVER_ensures(tl == ((encryption == g_e && keyOwnerJids->has_o && __CPROVER_old(tl) == oldTrustLevel) ? newTrustLevel : __CPROVER_old(tl)))
 __CPROVER_ensures(G_stlo.calls == __CPROVER_old(G_stlo.calls) + 1 && G_stlo.enc == encryption && G_stlo.from == oldTrustLevel && G_stlo.to == newTrustLevel && OL_EQ(G_stlo.owners, *keyOwnerJids) && __CPROVER_return_value == G_stlo.task)
 ;
+/* the same three operations called on the storage itself (QXmppTrustStorage::setTrustLevel / trustLevel); the answer of the
+   two setTrustLevel overloads is the set of keys whose level was actually modified (STL_ANSWER) */
+qtask Storage_setTrustLevel_keys(QXmppAtmTrustStorage *self, qstr encryption, const KeySet *keyIds, int trustLevel)
+__CPROVER_requires(KS_WF(*keyIds))
+__CPROVER_assigns(G_stl, tl)
+__CPROVER_ensures(tl == ((encryption == g_e && keyIds->has_pair) ? trustLevel : __CPROVER_old(tl)))
+__CPROVER_ensures(G_stl.calls == __CPROVER_old(G_stl.calls) + 1 && G_stl.enc == encryption && G_stl.level == trustLevel && KS_EQ(G_stl.keys, *keyIds) && __CPROVER_return_value == G_stl.task)
+;
+qtask Storage_setTrustLevel_owners(QXmppAtmTrustStorage *self, qstr encryption, const OwnerList *keyOwnerJids, int oldTrustLevel, int newTrustLevel)
+__CPROVER_assigns(G_stlo, tl)
+__CPROVER_ensures(tl == ((encryption == g_e && keyOwnerJids->has_o && __CPROVER_old(tl) == oldTrustLevel) ? newTrustLevel : __CPROVER_old(tl)))
+__CPROVER_ensures(G_stlo.calls == __CPROVER_old(G_stlo.calls) + 1 && G_stlo.enc == encryption && G_stlo.from == oldTrustLevel && G_stlo.to == newTrustLevel && OL_EQ(G_stlo.owners, *keyOwnerJids) && __CPROVER_return_value == G_stlo.task)
+;
+qtask Storage_trustLevel(QXmppAtmTrustStorage *self, qstr encryption, qstr keyOwnerJid, qkey keyId)
+__CPROVER_assigns(G_tlq)
+__CPROVER_ensures(G_tlq.calls == __CPROVER_old(G_tlq.calls) + 1 && G_tlq.enc == encryption && G_tlq.owner == keyOwnerJid && G_tlq.key == keyId && __CPROVER_return_value == G_tlq.task)
+;
+/* what setTrustLevel(enc, keys, level) answers in a state where the witness key had level tl0: under `enc`, exactly those of
+   `keys` whose level was not `level` before (possibly none at all).  Used by the lemma harnesses only. */
+#define KS_SUBSET(a, b) ((!(a).has_pair || (b).has_pair) && (!(a).has_owner || (b).has_owner) && (!(a).has_kid_k || (b).has_kid_k) && (!(a).has_kid_s || (b).has_kid_s) && (!(a).nonempty || (b).nonempty))
+#define STL_ANSWER(M, encr, keys, tl0, level) ((M).enc == (encr) && KS_WF((M).v) && KS_SUBSET((M).v, keys) && \
+   IFF((M).v.has_pair, (encr) == g_e && (keys).has_pair && (tl0) != (level)))
 qtask TrustManager_securityPolicy(QXmppAtmManager *self, qstr encryption)
 __CPROVER_assigns(G_pol)
 __CPROVER_ensures(G_pol.calls == __CPROVER_old(G_pol.calls) + 1 && G_pol.enc == encryption && __CPROVER_return_value == G_pol.task)
@@ -86,7 +108,9 @@ __CPROVER_assigns(G_get)
 __CPROVER_ensures(G_get.calls == __CPROVER_old(G_get.calls) + 1 && G_get.enc == encryption && KL_EQ(G_get.senders, *senderKeyIds) && __CPROVER_return_value == G_get.task)
 ;
 /* what keysForPostponedTrustDecisions(enc, senders) answers in a state with postponed entry pp0 for the witness: the
-   postponed decisions of the listed sender keys (of ALL sender keys when the list is empty, as documented), as
+   postponed decisions of the listed sender keys -- and of ALL sender keys when the list is EMPTY (documented in
+   QXmppAtmTrustStorage.cpp: "If senderKeyIds is empty, all keys for encryption are returned"; QXmppAtmTrustMemoryStorage does
+   exactly that).  A caller that means "the decisions of the keys in K" must therefore never pass an empty list -- as
    owner -> key id under `true` (authenticate) and `false` (distrust).  Used by the lemma harnesses only. */
 #define GET_ANSWER(R, enc, senders, pp0) (KS_WF((R).t) && KS_WF((R).f) && \
    (!((enc) == g_e && ((senders).has_s || !(senders).nonempty) && (pp0) == PP_T) || (R).t.has_pair) && \
